@@ -131,7 +131,7 @@ def r2_worker(ctx):
         return
     close = blocks_calling(b, 'tokio::sync::mpsc::bounded::Receiver::close')
     recv = blocks_calling(b, 'tokio::sync::mpsc::bounded::Receiver::recv')
-    touts = [(bb, t) for bb, t in b.calls() if callee(t) == TIMEOUT]
+    touts = [(bb, t) for bb, t in b.calls() if callee(t) in (TIMEOUT, TIMEOUT.replace('::timeout::timeout', '::timeout::timeout_at'))]
     sends = blocks_calling(b, SEND1)
     gs = blocks_calling(b, 'hyper_util::server::graceful::GracefulShutdown::shutdown')
     hc = blocks_calling(b, WK + 'Worker::handle_connection')
@@ -151,8 +151,17 @@ def r2_worker(ctx):
     ctx.ob('C16.R2', 'wait-before-completion', not (reach & set(sends)), b.loc(sends[0]),
            'every path from close() to completion_notifier.send(()) passes through timeout(.., coordinator.shutdown())')
     reads, calls, arith = timeout_provenance(b, tt)
-    ctx.ob('C16.R2', 'timeout-unmodified|worker', 'Graceful.timeout' in reads and not arith and not calls, b.loc(tb, tt),
-           'timeout(..) receives %s; calls on the way: %s; arithmetic: %s' % (sorted(reads), calls, arith))
+    if callee(tt) == TIMEOUT:
+        ctx.ob('C16.R2', 'timeout-unmodified|worker', 'Graceful.timeout' in reads and not arith and not calls, b.loc(tb, tt),
+               'timeout(..) receives %s; calls on the way: %s; arithmetic: %s' % (sorted(reads), calls, arith))
+    else:
+        # timeout_at(deadline, ..): the deadline is now + the unmodified timeout, computed without a panicking addition (a caller may pass
+        # Duration::MAX: `Instant + Duration` panics on overflow, tokio::time::timeout saturates)
+        safe = {'tokio::time::instant::Instant::now', 'std::time::Instant::now', 'tokio::time::instant::Instant::checked_add', 'std::time::Instant::checked_add',
+                'core::option::Option::unwrap_or', 'core::option::Option::unwrap_or_else', 'tokio::time::instant::Instant::far_future'}
+        other = [c for c in calls if c not in safe]
+        ctx.ob('C16.R2', 'timeout-unmodified|worker', 'Graceful.timeout' in reads and not arith and not other, b.loc(tb, tt),
+               'timeout_at(..) receives a deadline built from %s; calls on the way: %s (an `Instant + Duration` addition panics on overflow); arithmetic: %s' % (sorted(reads), calls, arith))
     defs = Defs(b)
     pl = op_place(tt['args'][1])
     sl, _ = backward_slice(b, pl['l'], defs)
